@@ -69,11 +69,16 @@ def _h(s):
 def parse_block(title, body):
     """one show_message(title, body) -> event (list of ints) or None when it is not understood"""
     if title in ('Breakpoint', 'Debug Step'):
-        m = re.match(r'Address ' + HEX + r'.*?\.\n\n(\d+) ops executed\.\n\nflip ' + HEX + r'.*?\.\n\njump ' + HEX + r'.*\.$',
+        # a word the banner could not read is shown as '(outside the memory segments)' -> -1
+        word = r'(-?0x[0-9a-f]+|\(outside the memory segments\))'
+        m = re.match(r'Address ' + HEX + r'.*?\.\n\n(\d+) ops executed\.\n\nflip ' + word + r'.*?\.\n\njump ' + word + r'.*\.$',
                      body, re.S)
         if not m:
             return None
-        return [PAUSE, 1 if title == 'Breakpoint' else 0, _h(m.group(1)), int(m.group(2)), _h(m.group(3)), _h(m.group(4))]
+
+        def wv(t):
+            return -1 if t.startswith('(') else _h(t)
+        return [PAUSE, 1 if title == 'Breakpoint' else 0, _h(m.group(1)), int(m.group(2)), wv(m.group(3)), wv(m.group(4))]
     if title == 'Debugger commands':
         return [HELP] if body.startswith('commands (one per line):') else None
     if title == 'Debugger':
@@ -116,7 +121,8 @@ def parse_block(title, body):
 def parse_transcript(text):
     """the stdout of a debugged run -> (events, problem).  Layout printed by the debugger:
          '  program break' [ '\n==== Breakpoint|Debug Step ====\n' body '\n' { '\n==== title ====\n' body '\n' } ': action\n' ]
-       a pause marker that is not followed by its banner means the banner raised (PAUSE_FAULT)."""
+       a pause marker that is not followed by its banner means the banner raised (PAUSE_FAULT) - the behaviour
+       of finding F11, fixed in the repository; kept so that a regression is reported."""
     events = []
     pos = 0
     tok = re.compile(r'  program break|\n==== (.+?) ====\n|: (step|skip|continue_all|continue|exit)\n')
@@ -181,7 +187,18 @@ def one_run(case, path, debug):
     kwargs = {'last_ops_debugging_list_length': case.get('last_ops', 4)}
     script = Script(case.get('script', []))
     buf = io.StringIO()
-    if debug:
+    quick = debug and case.get('via') == 'quickstart'
+    if quick:
+        # the public entry point: flipjump.debug(fjm, debugging_file, breakpoints_addresses=, breakpoints=, breakpoints_contains=)
+        from flipjump import flipjump_quickstart
+        from flipjump.interpreter.debugging.breakpoints import get_breakpoint_handler
+        from flipjump.utils.functions import save_debugging_labels
+        fjd = Path(str(path) + '.fjd')
+        save_debugging_labels(fjd, dict(case.get('labels') or {}))
+        qa = (set(case.get('bps', [])), set(case.get('bp_labels', [])), set(case.get('bp_contains', [])))
+        with contextlib.redirect_stdout(io.StringIO()):
+            res['resolved_bps'] = sorted(get_breakpoint_handler(fjd, *qa).breakpoints)
+    elif debug:
         labels = case.get('labels') or {}
         bps = {int(a): None for a in case.get('bps', [])}
         for name in case.get('bp_labels', []):
@@ -199,7 +216,13 @@ def one_run(case, path, debug):
     signal.setitimer(signal.ITIMER_REAL, case.get('watchdog', 10.0))
     try:
         with contextlib.redirect_stdout(buf):
-            st = fjm_run.run(path, io_device=dev, **kwargs)
+            if quick:
+                st = flipjump_quickstart.debug(path, fjd, breakpoints_addresses=qa[0], breakpoints=qa[1],
+                                               breakpoints_contains=qa[2], io_device=dev, print_time=False,
+                                               print_termination=False,
+                                               last_ops_debugging_list_length=kwargs['last_ops_debugging_list_length'])
+            else:
+                st = fjm_run.run(path, io_device=dev, **kwargs)
         res['cause'] = int(st.termination_cause)
         res['ops'] = st.op_counter
         res['fault'] = st.memory_error_address
